@@ -79,6 +79,15 @@ impl Bloom {
         self.bitset.fill(0)
     }
 
+    #[cfg(feature = "verif-hooks")]
+    pub(crate) fn verif_dump(&self, out: &mut Vec<u8>) {
+        out.extend_from_slice(&self.set_locs.to_le_bytes());
+        out.extend_from_slice(&self.size.to_le_bytes());
+        for w in self.bitset.iter() {
+            out.extend_from_slice(&w.to_le_bytes());
+        }
+    }
+
     /// `set` sets the bit[idx] of bitset
     pub fn set(&mut self, idx: u64) {
         let array_index = (idx >> 6) as usize;
